@@ -3,6 +3,7 @@
 package internal
 
 import (
+	"bytes"
 	"errors"
 	"fmt"
 	"runtime"
@@ -209,6 +210,10 @@ func (r *icRun) do(client int, op icOp, nextV *int) *icCall {
 	case "close":
 		s.Close()
 		c.OK = true
+	case "persist":
+		var buf bytes.Buffer
+		err := s.Persist(1, &buf)
+		c.OK, c.N = err == nil, buf.Len()
 	case "tick":
 		vrt.Advance(op.Arg)
 		vrt.Tick()
